@@ -24,6 +24,10 @@ TTransition ==
   /\ Chk("derived_quantities_equal_recomputation_from_stored_parameters",
          /\ Len(Ev.derived) = Len(Ev.recomputed)
          /\ \A j \in 1..Len(Ev.derived) : FClose(Ev.derived[j], Ev.recomputed[j], "2e-5", "2e-5"))
+  \* the same against a float64 closed form that involves no liesel object (float32 model: looser tolerance)
+  /\ Chk("derived_quantities_equal_closed_form_of_stored_parameters",
+         /\ Len(Ev.derived) = Len(Ev.closed_form)
+         /\ \A j \in 1..Len(Ev.derived) : FClose(Ev.derived[j], Ev.closed_form[j], "3e-4", "3e-4"))
   /\ p' = Ev.after
   /\ turn' = (IF turn = K THEN 1 ELSE turn + 1)
   /\ Step
